@@ -644,6 +644,10 @@ def check_loop_common(R, nm, c, self_, res, intr_key, intr_used, body_list):
     return comp
 
 
+_BREAK_AND_CONTINUE_SRC = ("out = []\nn = 0\nwhile n < 6:\n    n += 1\n    if n % 2:\n        continue\n    if n > 4:\n        break\n    out.append(n)\nelse:\n    out.append('else')\n"
+                           "def f(k):\n    seen = []\n    while k:\n        k -= 1\n        if k == 3:\n            continue\n        if k == 0:\n            return seen\n        seen.append(k)\n    return 'end'\nr = (out, n, f(5))\n")
+
+
 def g_while(R, tier):
     pn = CL.pn()
     base = "pending_nodes.PendingWhile.get_result"
@@ -673,6 +677,10 @@ def g_while(R, tier):
                 R.check(f"{nm}/constructor-pushes-the-loop", v["on_stack"] == [self_] and getattr(v["G"], "use_itertools", True) is True, repr(v["on_stack"]))
                 brk_key = ("name", TL.nk(self_.flow_ctrl_break_expr.id))
                 intr_key = ("name", TL.nk(self_.flow_ctrl_interrupt_expr.id))
+                # lemma A4: a `continue` sets the interrupt flag of its loop and nothing else; whether the loop
+                # goes on is read from the break flag.  Two different variables, or a continue ends the loop.
+                R.check(f"{nm}/break-flag-and-interrupt-flag-are-different-variables", brk_key != intr_key, f"{brk_key} / {intr_key}",
+                        replay=dict(kind="src", src=_BREAK_AND_CONTINUE_SRC, expect="same-globals"))
                 comp = check_loop_common(R, nm, c, self_, res, intr_key, intr_used, self_.converted_body)
                 if comp is None:
                     continue
@@ -1360,3 +1368,6 @@ from suites import thorough as _th
 GROUPS["thorough:skeletons"] = _th.bounded_from_replay("bounded/control-flow-skeletons-depth-2-x-6-schedules", replay_skeleton)
 for _i in range(1, 6):  # further samples of the 19695 depth-2 blocks (different shuffles), in parallel groups
     GROUPS[f"thorough:skeletons:{_i}"] = _th.bounded_from_replay(f"bounded/control-flow-skeletons-depth-2-x-6-schedules/sample-{_i}", replay_skeleton, rp=dict(seed=100 + _i))
+
+# bounded stand-ins for undecided obligations (olvc/oblig.py::main_check)
+STANDINS = {"*": [dict(kind="skeleton")]}
